@@ -438,7 +438,7 @@ C05_Fresh       == P!StoppedLast(log) /\ P!IncMonotone(log) /\ P!IncOrder(log)
 C05_Numbered    == P!RestartsNumbered(events)
 C05_Complete    == Quiet => \A a \in Actors : (reg[a] /\ P!NotStopping(issued, events, a)) => \A k \in accepted[a] : P!Handled(log, a, k)
 C06_Alive       == ~dead
-C06_Bounded     == P!RestartsBounded(events) /\ \A a \in Actors : restarts[a] <= MaxRestarts[a]
+C06_Bounded     == (dups = 0 => P!ExhaustedOnce(events)) /\ P!RestartsBounded(events) /\ \A a \in Actors : restarts[a] <= MaxRestarts[a]
 C06_Clean       == (Quiet /\ dups = 0) => P!CleanAfterExhaustion(events, issued, reg, FALSE)
 C06_CleanKF     == (Quiet /\ dups = 0) => P!CleanAfterExhaustion(events, issued, reg, TRUE)    \* (an id spawned again is registered again)
 C07_DoneAfterStop == P!DoneAfterStop(log, done, FALSE)
